@@ -57,8 +57,14 @@ structure UniqueNames where
 
 def AUX_FUNC : String := "__aux_"
 
+/-- the signatures of `#show p/n.` statements count as taken (fix recorded as `fixed:` in known_findings.json) -/
+def showSigs (prg : Prog) : List Pred :=
+  prg.filterMap fun s => match s with
+    | .showSig n k _ => some ⟨n, k⟩
+    | _ => none
+
 def UniqueNames.init (prg : Prog) (inputs : List Pred) : UniqueNames :=
-  ⟨0, inputs ++ prg.allPreds⟩
+  ⟨0, inputs ++ prg.allPreds ++ showSigs prg⟩
 
 /-- first `k' ≥ k` (within `fuel` candidates) with `mk k' ∉ known` -/
 def findFree (mk : Nat → Pred) (known : List Pred) : Nat → Nat → Option Nat
